@@ -133,6 +133,8 @@ TraceStim ==
             EnvSend(s.conn, se.evs, se.rest, se.dead) /\ UNCHANGED target
        [] s.op = "rclose" -> EnvRClose(s.conn) /\ UNCHANGED target
        [] s.op = "rreset" -> EnvReset(s.conn) /\ UNCHANGED target
+       [] s.op = "stall" -> EnvStall(s.conn, TRUE) /\ UNCHANGED target
+       [] s.op = "unstall" -> EnvStall(s.conn, FALSE) /\ UNCHANGED target
        [] s.op = "lisFail" -> EnvLisFail /\ UNCHANGED target
        [] s.op = "lisGate" -> EnvLisGate(TRUE) /\ UNCHANGED target
        [] s.op = "lisRelease" -> EnvLisGate(FALSE) /\ UNCHANGED target
